@@ -79,7 +79,7 @@ def check_c02(ck, tier, replay=None):
     ck.units += ['csg/src/libcsg/orthorhombicbox.cc', 'csg/src/libcsg/triclinicbox.cc', 'csg/src/libcsg/openbox.cc', 'csg/src/libcsg/boundarycondition.cc', 'csg/src/libcsg/topology.cc (autoDetectBoxType)', 'csg/include/votca/csg/topology.h (setBox, BCShortestConnection)']
     ck.functions.update(common.ir_func_sizes(mod, r'BCShortestConnection|BoxVolume|getShortestBoxDimension|autoDetectBoxType|^@h_'))
     ck.assumptions += ['doubles interpreted as exact reals (property is stated "to rounding"); std::round = nearest integer, ties away from zero',
-                       'ties (a component exactly half a box length from both images) are excluded in the invariance and antisymmetry obligations and listed as such',
+                       'ties (a component exactly half a box length from both images) are excluded in the invariance obligations only; antisymmetry is required at ties too (std::round is odd)',
                        'orthorhombic: edges L>0; triclinic: GROMACS reduction conditions a_y=a_z=b_z=0, a_x,b_y,c_z>0, |b_x|<=a_x/2, |c_x|<=a_x/2, |c_y|<=b_y/2']
     validate(ck, mod, tier)
     parsed = {}
@@ -119,7 +119,7 @@ def check_c02(ck, tier, replay=None):
     # O3 antisymmetry
     p3, _ = run_box(mod, 'ortho', obox, rj, ri, Lpos, parsed=parsed); pc3, res3, _ = p3[0]
     for i in range(3):
-        smt.prove(ck, 'ortho.antisymmetry[%d]' % i, pc + pc3 + notie, res3[i] != -res[i], TO, probe=Lpos + pc + [fresh[i] != -res[i]])
+        smt.prove(ck, 'ortho.antisymmetry[%d] (ties included: round is half-away-from-zero, hence odd)' % i, pc + pc3, res3[i] != -res[i], TO, probe=Lpos + pc + [fresh[i] != -res[i]])
     # ------------------------------------------------------------------ open box
     p4, st4 = run_box(mod, 'open', [z3.Real('ob%d' % i) for i in range(9)], ri, rj, parsed=parsed); pc4, res4, _ = p4[0]
     for i in range(3):
@@ -187,7 +187,7 @@ def check_c02(ck, tier, replay=None):
     p6, _ = run_box(mod, 'tric', tbox, rj, ri, grom, parsed=parsed); pc6, res6, _ = p6[0]
     for i in (2, 1, 0):
         pre = [res6[j] == -rest[j] for j in range(i + 1, 3)]
-        smt.prove(ck, 'tric.antisymmetry[%d]' % i, pct + pc6 + strict + pre, res6[i] != -rest[i], TO, probe=grom + pct + [fresh[i] != -rest[i]])
+        smt.prove(ck, 'tric.antisymmetry[%d] (ties included)' % i, pct + pc6 + pre, res6[i] != -rest[i], TO, probe=grom + pct + [fresh[i] != -rest[i]])
     ck.bounds['invariance shift'] = 'orthorhombic: unbounded integer n; triclinic: |n_i| <= %d' % NB
     # ------------------------------------------------------------------ volume and shortest height
     gbox = [z3.Real('g%d' % i) for i in range(9)]
